@@ -1,7 +1,7 @@
 (** C16 extension — Signature.ty / sender, and the secp256k1eth note mode. *)
 From Coq Require Import String List NArith ZArith Lia Bool.
-From C33 Require Import Lib.Harness C16.Proto C16.Model C16.Spec C16.Proofs
-                        C16.ProtoUnknown C16.ModelUnknown C16.ModelEth C16.SpecExt.
+From C33 Require Import Lib.Harness C16.Proto C16.Model C16.Spec C16.Proofs C16.ProofsFrom
+                        C16.ProtoUnknown C16.ModelUnknown C16.ModelEth C16.SpecExt C16.ProofsUnknown.
 Import ListNotations.
 Open Scope list_scope.
 
@@ -27,44 +27,81 @@ Proof.
   rewrite E. repeat split; reflexivity.
 Qed.
 
+(** the whole of Transaction.CheckSign: ty also decides whether a sender
+    address can be derived (address id bits 12-14); among types with the same
+    driver id and the same answer to that, the verdict is the same *)
+Lemma set_ty_sig ty' t s :
+  signature t = Some s -> sig_ty (set_ty ty' t) = ty' /\ sig_pub (set_ty ty' t) = s_pub s.
+Proof. intro Sg. unfold sig_ty, sig_pub, set_ty. cbn [signature set_sig]. rewrite Sg. split; reflexivity. Qed.
+
+Lemma ty_selects_driver_and_sender :
+  forall adrv ds verify t s ty' h,
+    signature t = Some s -> crypto_id ty' = crypto_id (s_ty s) ->
+    usable adrv ty' (s_pub s) = usable adrv (s_ty s) (s_pub s) ->
+    check_sign_tx adrv ds verify (set_ty ty' t) h = check_sign_tx adrv ds verify t h.
+Proof.
+  intros adrv ds verify t s ty' h Sg E U.
+  rewrite !check_sign_tx_split.
+  destruct (set_ty_sig ty' t s Sg) as [-> ->].
+  destruct (ty_only_selects_driver ds verify t s ty' h Sg E) as (-> & _).
+  unfold sig_ty, sig_pub. rewrite Sg, U. reflexivity.
+Qed.
+
+(** unknown fields do not reach the gate either *)
+Lemma checksign_tx_ignores_unknown :
+  forall adrv ds verify d h, check_sign_tx_d adrv ds verify d h = check_sign_tx adrv ds verify (d_tx d) h.
+Proof.
+  intros adrv ds verify d h. unfold check_sign_tx_d, check_sign_tx.
+  rewrite checksign_ignores_unknown. reflexivity.
+Qed.
+
 (** full strength: whoever is accepted with the honest signature is the
     sender the signer meant (same address format of the same key) *)
 Definition C16_sender_bound_full : Prop :=
-  forall ds verify mall issued t ty pub sg t' s' h,
+  forall adrv ds verify mall issued t ty pub sg t' s' h,
     ideal_scheme verify mall issued ->
     only_issued issued (crypto_id ty) pub (sign_msg t) sg ->
     wf_txb t = true -> wf_txb t' = true ->
     signature t' = Some s' -> crypto_id (s_ty s') = crypto_id ty ->
-    check_sign ds verify t' h = true ->
-    sender_of t' = sender_of (sign_tx ty pub sg t).
+    check_sign_tx adrv ds verify t' h = true ->
+    sender_of t' = sender_of (sign_tx ty pub sg t) /\
+    tx_from adrv t' = tx_from adrv (sign_tx ty pub sg t).
 
+(** still refuted after the repair of finding 11 (finding 10: the address id
+    bits are not signed): between two address formats that both have a driver
+    anyone can move the transaction to the other account of the key *)
 Lemma sender_bound_refuted : ~ C16_sender_bound_full.
 Proof.
   intro F.
-  specialize (F toy_ds toy_verify toy_mall toy_issued1 toy_tx 1%Z toy_pub toy_sg
+  specialize (F toy_adrv toy_ds toy_verify toy_mall toy_issued1 toy_tx 1%Z toy_pub toy_sg
                 (sign_tx 4097 toy_pub toy_sg toy_tx) (mk_sig 4097 toy_pub toy_sg) 20%Z
                 toy_ideal toy_only eq_refl eq_refl eq_refl eq_refl).
-  assert (C : check_sign toy_ds toy_verify (sign_tx 4097 toy_pub toy_sg toy_tx) 20 = true)
+  assert (C : check_sign_tx toy_adrv toy_ds toy_verify (sign_tx 4097 toy_pub toy_sg toy_tx) 20 = true)
     by (vm_compute; reflexivity).
-  specialize (F C). vm_compute in F. discriminate F.
+  destruct (F C) as [F1 _]. vm_compute in F1. discriminate F1.
 Qed.
 
 (** guard: the address-format bits are the signer's; then the sender is bound *)
 Lemma sender_bound_partial :
-  forall ds verify mall issued t ty pub sg t' s' h,
+  forall adrv ds verify mall issued t ty pub sg t' s' h,
     Z.eqb (addr_id (s_ty s')) (addr_id ty) = true ->
     ideal_scheme verify mall issued ->
     only_issued issued (crypto_id ty) pub (sign_msg t) sg ->
     wf_txb t = true -> wf_txb t' = true ->
     signature t' = Some s' -> crypto_id (s_ty s') = crypto_id ty ->
-    check_sign ds verify t' h = true ->
-    sender_of t' = sender_of (sign_tx ty pub sg t).
+    check_sign_tx adrv ds verify t' h = true ->
+    sender_of t' = sender_of (sign_tx ty pub sg t) /\
+    tx_from adrv t' = tx_from adrv (sign_tx ty pub sg t).
 Proof.
-  intros ds verify mall issued t ty pub sg t' s' h G Id Only W W' Sg Eid C.
+  intros adrv ds verify mall issued t ty pub sg t' s' h G Id Only W W' Sg Eid C.
+  apply check_sign_tx_true in C as [_ C].
   destruct (accepted_is_issued ds verify mall issued t ty pub sg t' s' h Id Only W W' Sg Eid C)
     as (_ & Ep & _).
-  apply Z.eqb_eq in G. unfold sender_of. rewrite Sg. cbn [option_map sign_tx set_sig signature s_ty s_pub].
-  rewrite G, Ep. reflexivity.
+  apply Z.eqb_eq in G. split.
+  - unfold sender_of. rewrite Sg. cbn [option_map sign_tx set_sig signature s_ty s_pub].
+    rewrite G, Ep. reflexivity.
+  - rewrite !from_value. destruct (sig_of_sign_tx ty pub sg t) as [-> ->].
+    unfold sig_ty, sig_pub. rewrite Sg, G, Ep. reflexivity.
 Qed.
 
 Example ex_addr_id : addr_id 1 = 0%Z /\ addr_id 4097 = 1%Z /\ addr_id 8452 = 2%Z /\ addr_id 28673 = 7%Z /\
